@@ -20,6 +20,7 @@ type ipCode struct {
 	Code []int `json:"code"`
 	Val  []int `json:"val"`
 	Tick bool  `json:"tick"`
+	Next bool  `json:"next"`
 }
 
 type ipRec struct {
@@ -33,7 +34,7 @@ type ipRec struct {
 	Fault string   `json:"fault"`
 }
 
-var c14Ticks int64
+var c14Ticks, c14Nexts int64
 
 // the variables of every case: data which itself looks like code
 var c14Vars = map[string]string{
@@ -44,6 +45,8 @@ var c14Vars = map[string]string{
 	"e": "{{verif.tick()}}", // data with a side effect
 	"f": "{{",
 	"g": "p{{e}}q",
+	"h": "😀😀{{a}}", // multi-byte characters in front of markers in the last bytes of a value
+	"i": "ää{{d}}ö{{e}}",
 }
 
 // expressions with known value text
@@ -58,6 +61,7 @@ func c14Codes() []ipCode {
 	}
 	add("1+2", "3", false)
 	add("verif.tick()", "T", true)
+	cs = append(cs, ipCode{Code: bytesOf("verif.next()"), Val: []int{}, Next: true})
 	return cs
 }
 
@@ -70,10 +74,13 @@ func C14(r *ev.Run) {
 		atomic.AddInt64(&c14Ticks, 1)
 		return "T", nil
 	})
+	bindVerif("next", func(tid uint64, args []interface{}) (interface{}, error) {
+		return float64(atomic.AddInt64(&c14Nexts, 1)), nil
+	})
 	r.Assume("exact output is demanded for literals whose {{...}} expressions all come from a table of expressions with known value text; any other arrangement of markers only has to yield a string in bounded time")
 	codes := c14Codes()
 	pieces := []string{"{{", "}}", "{", "}", "t", " ", "\"", "\\", "\n", "{{a}}", "{{b}}", "{{c}}", "{{d}}", "{{e}}", "{{f}}", "{{g}}", "{{1+2}}",
-		"{{verif.tick()}}", "{{ a }}", "{{zz}}", "{{1 +}}", "{{verif.tick() + a}}", "{{a", "b}}", "#", "ä"}
+		"{{verif.tick()}}", "{{verif.next()}}", "{{h}}", "{{i}}", "😀", "{{ a }}", "{{zz}}", "{{1 +}}", "{{verif.tick() + a}}", "{{a", "b}}", "#", "ä"}
 	var setup strings.Builder
 	for k, v := range c14Vars {
 		fmt.Fprintf(&setup, "%s := r\"%s\"\n", k, v)
@@ -92,6 +99,7 @@ func C14(r *ev.Run) {
 		src := setup.String() + "res := " + lit + "\nres"
 		rec := &ipRec{Src: lit, Lit: bytesOf(val), Raw: raw, Codes: codes, Out: []int{}}
 		atomic.StoreInt64(&c14Ticks, 0)
+		atomic.StoreInt64(&c14Nexts, 0)
 		env := newEcalEnv(1)
 		var res interface{}
 		var err error
